@@ -103,6 +103,8 @@ def task(desc):
             args += ["-t"] + names + ["--deps"]
         elif desc.get("select") == "explicit":
             args += ["-t"] + names
+        elif desc.get("select") == "explicit-twice":
+            args += ["-t"] + names + names[:1]   # the first target named twice
         if desc["argmaps_opt"]:
             args += ["-m"] + desc["argmaps_opt"]
         if desc["no_base"]:
@@ -221,6 +223,11 @@ def scenarios(tier):
             files = [{"base": "args", "m1": "args", "m2": None}, {"base": "args", "m1": "nocmd", "m2": "args"}]
             out.append({"targets": 2, "commands": ["build", "test"], "files": files, "argmaps_opt": ["m1", "m2"], "no_base": False,
                         "args": None, "argdir": argdir, "cmdsrc": cmdsrc, "vocab": plain, "foreign": True})
+    # (2h) the same target named twice in -t
+    for cmdsrc in ("default", "defpath"):
+        files = [{"base": "args", "m1": "args", "m2": None}] * 2
+        out.append({"targets": 2, "commands": ["build"], "files": files, "argmaps_opt": ["m1"], "no_base": False,
+                    "args": None, "argdir": "default", "cmdsrc": cmdsrc, "vocab": plain, "select": "explicit-twice"})
     # (2g) command names with a dot that share their stem with another command (build / build.release)
     for cmdsrc in ("default", "custompath", "defpath", "defempty"):
         for cmds in (["build", "build.release"], ["build.release"]):
